@@ -10,7 +10,7 @@ case "$cmd" in
  new)
   rm -rf "$SCR"; mkdir -p "$SCR"; rsync -a --exclude .git /repo/ "$SCR"/ ;;
  try)
-  /verif/bin/vcheck -repo "$SCR" -no-evidence -prop "$1" | grep -v -E '^(loaded)' | grep -E 'violated|undecided|VIOLATION|KNOWN|property' || true ;;
+  /verif/bin/vcheck -repo "$SCR" -no-evidence -prop "$1" | grep -v -E '^(loaded)' | grep -E '^   (violated|undecided)|^VIOLATION|^property .* [1-9][0-9]* violations' | cut -c1-400 || true ;;
  save)
   name=$1; prop=$2; expect=$3; rules=$4; desc=$5
   d=/verif/witness/$name; mkdir -p "$d"
@@ -21,7 +21,7 @@ d,prop,expect,rules,desc=sys.argv[1:6]
 json.dump({"property":prop,"expect":expect,"rules":[r for r in rules.split(",") if r],"desc":desc},open(d+"/meta.json","w"),indent=1)
 P
   echo "saved $d ($(grep -c '^[-+][^-+]' $d/patch.diff) changed lines)"
-  /verif/bin/vcheck -repo "$SCR" -no-evidence -prop "$prop" | grep -E 'violated|undecided|^property' || true
+  /verif/bin/vcheck -repo "$SCR" -no-evidence -prop "$prop" | grep -E '^   (violated|undecided)|^property' | cut -c1-300 || true
   rm -rf "$SCR"; mkdir -p "$SCR"; rsync -a --exclude .git /repo/ "$SCR"/ ;;
  *) echo "usage: wit.sh new|try|save"; exit 2;;
 esac
